@@ -61,6 +61,8 @@ MSSMCoincidences ==
    \* two-loop Barr-Zee: mass ratio 1/4 and 1 of f_PS, f_S, f_sferm
    \cup {C(par, r, a, b) : par \in {"MA0", "M2", "Mu", "mq2_2", "mu2_2", "md2_2", "ml2_2", "me2_2"}, r \in {"half", "eq"},
                            a \in ThresholdLight, b \in ThresholdHeavy}
+   \* a Higgs mass equal to MZ or MW: tan(2 alpha) of the tree-level CP-even mixing has its pole at MA0 = MZ
+   \cup {C("MA0", "eq", a, b) : a \in {"MAh_10", "Mhh_10", "MHpm_10"}, b \in {"MVZ", "MVWm"}}
 
 AllCoincidencesC11 == AllCoincidences \cup {c \in MSSMCoincidences : c.a # c.b}
 
@@ -107,7 +109,7 @@ OneVarCases == UNION {{[fn |-> f, cls |-> c, win |-> OneVar[f].win, hi |-> OneVa
 DilogClasses == {"negHuge", "negLarge", "negOneLo", "negOne", "negOneHi", "negSmall", "zero", "posSmall", "halfLo", "half", "halfHi",
                  "oneLo", "one", "oneHi", "twoLo", "two", "twoHi", "large", "huge"}
 Cl2Classes == {"zero", "tiny", "small", "piLo", "pi", "piHi", "twoPiLo", "twoPi", "twoPiHi", "neg", "negPi", "large", "huge", "generic"}
-CDilogClasses == {"zero", "tinyMod", "insideHalf", "halfCircle", "unitCircle", "nearOne", "one", "outside", "farOutside", "realAxisLeft",
+CDilogClasses == {"zero", "tinyMod", "smallMod", "insideHalf", "halfCircle", "unitCircle", "nearOne", "one", "outside", "farOutside", "realAxisLeft",
                   "cutAbove", "cutBelow", "imagAxis", "negReal", "generic"}
 SpecialCases == {[fn |-> "dilog", cls |-> c, win |-> NoWin, hi |-> 0, zero |-> "limit"] : c \in DilogClasses}
           \cup {[fn |-> "clausen_2", cls |-> c, win |-> NoWin, hi |-> 0, zero |-> "limit"] : c \in Cl2Classes}
